@@ -523,8 +523,11 @@ class Folder:
                     tgts = [node.target]
                 for t in tgts:
                     for nm in ast.walk(t):
-                        if isinstance(nm, ast.Name):
+                        # `d[k] = v` re-binds neither d nor k (d is mutated: see below), only Store names are bound
+                        if isinstance(nm, ast.Name) and isinstance(nm.ctx, (ast.Store, ast.Del)):
                             counts[nm.id] = counts.get(nm.id, 0) + 1
+                        elif isinstance(nm, ast.Name) and isinstance(t, ast.Subscript) and nm is t.value:
+                            counts[nm.id] = counts.get(nm.id, 0) + 1  # the container that is written into
         for p in fn.node.args.args + fn.node.args.kwonlyargs + fn.node.args.posonlyargs:
             counts[p.arg] = counts.get(p.arg, 0) + 1
             env[p.arg] = UNKNOWN
